@@ -1,7 +1,7 @@
-\* thorough: two calls with every network fault
-SPECIFICATION MCSpec
+\* thorough (-coverage 1): one call, every network fault, every DELETE fate, held POST
+SPECIFICATION Spec
 CONSTANTS
-  Calls = {"k1", "k2"}
+  Calls = {"k1"}
   CCl = {"c1"}
   SCl = {"s1"}
   Stateless = FALSE
@@ -9,12 +9,11 @@ CONSTANTS
   Sse = TRUE
   Nested = FALSE
   Faults = {"cut", "net", "vanish"}
-  DelModes = {"hang", "fail"}
-  Helds = FALSE
+  DelModes = {"fail", "hang", "hold"}
+  Helds = TRUE
   Notifs = FALSE
   Cancels = FALSE
   AwaitHandlers = TRUE
   StopSseOnClose = TRUE
-VIEW MCView
 INVARIANTS TypeOK NothingDispatchedAfterClose RunningHandlersFinish SessionRemoved
 CHECK_DEADLOCK FALSE
